@@ -161,7 +161,9 @@ def check(run: Run) -> None:
                         "table with C18.b)"):
         # re-run the C18.b table under this rule id so a break is attributed to C17 as well
         sub = Run("C17", run.tier, run.tree, quiet=True)
-        c18.check(sub)
+        sub.is_sub = True
+        if not getattr(run, "is_sub", False):
+            c18.check(sub)
         run.evaluations += sub.evaluations
         run.count(1, "C17.e")
         for f in sub.findings:
